@@ -1059,10 +1059,100 @@ def run_prop(pid, tier):
                 ctx.harness_gap(what)
             else:
                 ctx.violation(sig, what, {"witness": witness, "case": str(r["spec"])})
+    if pid == "C18":
+        decoder_cli(ctx)
     ctx.extra["solver"] = {"z3": smt.z3_version()}
     ctx.assume("iotostr / strtoio / pack are the identity on single bytes 0..255 (latin-1); f.read(n) returns min(n, remaining) bytes; ord('') raises TypeError; sys.exit and exceptions = failure reported")
     ctx.assume("run lengths above the unwinding bound are covered only at the listed boundary values; fixed-size formats are checked on prefixes (uniform loop bodies) and by concrete truncation sweeps of one well-formed file")
     return ctx
+
+
+def decoder_cli(ctx):
+    """C18 'every valid option combination': the command line of each decoder hands its options to convert() as
+    documented (-w width, -r rows, -s skip, pixel mode flags, -i, -newsroom); files are opened in binary mode and closed;
+    MAX removes the output after a failed conversion unless header errors are ignored"""
+    import importlib
+    import itertools
+    import os
+    import tempfile
+
+    tmp = tempfile.mkdtemp(prefix="c18cli")
+    try:
+        inp, outp = os.path.join(tmp, "in.bin"), os.path.join(tmp, "out.bin")
+        with open(inp, "wb") as f:
+            f.write(bytes(range(64)))
+
+        def run(modname, argv, result=True):
+            mod = importlib.import_module("coco." + modname)
+            calls = []
+            real = mod.convert
+
+            def rec(*a, **k):
+                calls.append((a, k))
+                return result
+
+            mod.convert = rec
+            try:
+                try:
+                    mod.start([inp, outp] + argv)
+                    status = "ok"
+                except SystemExit as e:
+                    status = f"exit {e.code}"
+            finally:
+                mod.convert = real
+            return status, calls
+
+        def expect(modname, argv, want, what):
+            ctx.stats["programs"] += 1
+            ctx.stats["obligations"] += 1
+            status, calls = run(modname, argv)
+            got = None
+            if calls:
+                a = calls[0][0]
+                got = tuple(a[2:])
+                names = (getattr(a[0], "mode", None), getattr(a[1], "mode", None))
+                if names != ("rb", "wb"):
+                    ctx.violation(f"cli:{modname}:file-modes", f"{modname} {argv}: streams opened as {names}", {"argv": argv})
+            if status != "ok" or got != want:
+                ctx.violation(f"cli:{modname}:{what}", f"{modname} {' '.join(argv)}: convert() received {got} ({status}), documented {want}", {"argv": argv})
+            else:
+                ctx.stats["identity"] += 1
+
+        for w, r, sk in itertools.product((None, 4, 640), (None, 1, 200), (None, 0, 7)):
+            argv = (["-w", str(w)] if w is not None else []) + (["-r", str(r)] if r is not None else []) + (["-s", str(sk)] if sk is not None else [])
+            expect("hrstoppm", argv, (w or 320, r or 192, sk), "options")
+        modes = {None: 0, "-br": 1, "-rb": 2, "-br2": 3, "-rb2": 4, "-br3": 5, "-rb3": 6, "-s10": 7, "-s11": 8}
+        for (flag, mode), news, ign in itertools.product(modes.items(), (False, True), (False, True)):
+            for w, r, sk in ((None, None, None), (128, None, None), (None, 96, None), (None, None, 5), (64, 10, 3)):
+                argv = ([flag] if flag else []) + (["-newsroom"] if news else []) + (["-i"] if ign else []) + (["-w", str(w)] if w else []) + (["-r", str(r)] if r else []) + (["-s", str(sk)] if sk else [])
+                expect("maxtoppm", argv, (mode, news, w or 256, r, sk, ign), "options")
+        for modname in ("pixtopgm", "mgetoppm", "rattoppm", "cm3toppm"):
+            expect(modname, [], (), "options")
+        # invalid values are refused by the option parser (documented: positive / non-negative integers)
+        for modname, argv in (("hrstoppm", ["-w", "0"]), ("hrstoppm", ["-r", "-3"]), ("hrstoppm", ["-s", "-1"]), ("maxtoppm", ["-w", "0"]), ("maxtoppm", ["-s", "-1"]), ("maxtoppm", ["-r", "x"])):
+            ctx.stats["obligations"] += 1
+            import contextlib
+            import io as _io
+
+            with contextlib.redirect_stderr(_io.StringIO()):
+                status, calls = run(modname, argv)
+            if calls or status == "ok":
+                ctx.violation(f"cli:{modname}:invalid-option-accepted", f"{modname} {' '.join(argv)} is accepted ({status})", {"argv": argv})
+            else:
+                ctx.stats["identity"] += 1
+        # MAX: a failed conversion removes the output file, unless -i
+        for ign in (False, True):
+            ctx.stats["obligations"] += 1
+            status, calls = run("maxtoppm", ["-i"] if ign else [], result=False)
+            exists = os.path.exists(outp)
+            if (not ign and exists) or status == "ok" and not ign and exists:
+                ctx.violation("cli:maxtoppm:output-kept-after-failure", f"maxtoppm: convert() failed, output file still there (status {status})", {})
+            else:
+                ctx.stats["identity"] += 1
+    finally:
+        import shutil
+
+        shutil.rmtree(tmp, ignore_errors=True)
 
 
 def replay(rec):
